@@ -6,7 +6,7 @@ import z3
 from . import sorts as S
 from .sorts import V, INT, BOOL, STR, BYTES, NONE, ANY, Seq, Tup, Opt, SetS, MapS, Opaque, Enum, Obj, PySide, EXC, FUNC
 from .state import EngineError, SpecDrift, Ctx
-from .engine import GLOB, POLY_LIST, POLY_DICT, POLY_SET, ITER, Out, exc_value, imp_value
+from .engine import GLOB, POLY_LIST, POLY_DICT, POLY_SET, ITER, Out, exc_value, imp_value, LOGGING_CALLS, EXC_NAME
 
 MAX_PATHS = 4000
 
@@ -515,10 +515,12 @@ class StmtMixin:
                                 # a method call mutates only containers and declared objects; opaque values are
                                 # immutable in the model (their attributes are functions of the value)
                                 v = st.env.get(b[0])
-                                if v is None or isinstance(v.s, (Seq, SetS, MapS, Tup, Obj, Opt)) or v.s in (POLY_LIST, POLY_SET, POLY_DICT):
+                                # (declared objects: the effect of a method call is its contract's frame, or the
+                                #  conservative whole-object havoc decided in havoc_loop for calls without a contract)
+                                if v is None or isinstance(v.s, (Seq, SetS, MapS, Tup, Opt)) or v.s in (POLY_LIST, POLY_SET, POLY_DICT):
                                     names.add(b[0])
                             else:
-                                fields.add(b)
+                                fields.add(("@call",) + tuple(b))     # receiver of a method call: havocked only if mutable
                     contracts.append(n)
                 elif isinstance(n, ast.AugAssign):
                     b = _base_name(n.target)
@@ -562,6 +564,8 @@ class StmtMixin:
                             fields.add(tuple(b) + tuple(m[5:].split(".")))
                         else:
                             fields.add(("self",) + tuple(m[5:].split(".")))
+            elif LOGGING_CALLS.match(text) or text in self.spec.pure_calls or EXC_NAME.search(text.split(".")[-1]):
+                pass          # logging, declared-pure calls and exception constructors do not mutate self
             elif isinstance(c.func, ast.Attribute) and isinstance(c.func.value, ast.Name) and c.func.value.id == "self":
                 has_opaque_self = True
             elif any(isinstance(a, ast.Name) and a.id == "self" for a in c.args):
@@ -588,6 +592,11 @@ class StmtMixin:
         if has_opaque_self and me is not None and isinstance(me.s, Obj):
             self.havoc_object(st, me)
         for f in sorted(fields):
+            via_call = f[0] == "@call"
+            if via_call:
+                f = f[1:]
+                if f in fields:
+                    continue
             base = st.env.get(f[0])
             if base is None or not isinstance(base.s, Obj):
                 continue
@@ -601,6 +610,8 @@ class StmtMixin:
             if not ok or len(f) < 2:
                 continue
             cur = self.read_field(st, ref, f[-1])
+            if via_call and not isinstance(cur.s, (Seq, SetS, MapS, Tup, Opt)):
+                continue        # opaque values are immutable in the model; declared objects change through contracts
             if isinstance(cur.s, Obj):
                 self.havoc_object(st, cur)
             else:
